@@ -66,6 +66,7 @@ func newLifeWorldP(private bool) *lifeWorld {
 		return s
 	}
 	w.schemas["s1"] = mk("s1", "{\n  \"a\": @T,\n  \"c\": 3,\n  \"b\": [ // {optional: true}\n    1\n  ],\n  \"abc\": 2 // {optional: true}\n} # the end", map[string]string{"@T": "1 // {min: 0}"})
+	w.schemas["s0"] = mk("s0", "{\n  \"a\": // a note left behind\n ]", nil)
 	w.schemas["s2"] = mk("s2", "{\n  \"a\": 1 // {min: 5}\n} ### the end ###", nil)
 	w.schemas["s3"] = mk("s3", "{\n  \"a\": 1,\n  \"r\": @Rec // {optional: true}\n}", map[string]string{"@Rec": "{\n  \"r\": @Rec, // {optional: true}\n  \"x\": 1\n}"})
 	w.schemas["s4"] = mk("s4", "{\n  @K: 1, // {optional: true}\n  @K2: 2, // {optional: true}\n  \"a\": 1 // {optional: true}\n}",
